@@ -13,6 +13,8 @@ import RoaringModel.Lemmas.FidelityFmt
 import RoaringModel.Props.C10
 import RoaringModel.SafeCodec
 import RoaringModel.Lemmas.SafeCodecLemmas
+import RoaringModel.SafeCompose
+import RoaringModel.Lemmas.SafeComposeLemmas
 /-!
 # C16 — public operations are total: only the documented panics (property theorems)
 
@@ -791,5 +793,220 @@ example : Treemap.Safe_deserialize readN true true
 theorem C16_safe_treemap_deserialize_reader {σ : Type} (Good : σ → Prop) (R : Nat → Parser σ (List Nat))
     (hR : ReaderOK Good R) (chk dbg : Bool) (s : σ) (hs : Good s) : Treemap.Safe_deserialize R chk dbg s :=
   Treemap.safe_deserialize hR chk dbg s hs
+/-! ## Compositions (SafeCompose.lean)
+
+One predicate and one theorem per PUBLIC method: the method's own arithmetic / indexing together with the side
+conditions of every callee on the value it is actually called with (the index a binary search returned, the container
+just created, the container vector after the iterations before, the running counter).  Loop predicates recurse over the
+list the model's loop recurses over and carry the loop state, so they speak about every iteration. -/
+
+/-- `RoaringBitmap::insert` (inherent.rs:188-198): `util::split`, `self.containers[loc]` on `Ok(loc)`,
+    `self.containers.insert(loc, …)` + `self.containers[loc]` on `Err(loc)`, then `Container::insert`
+    (container.rs:50-57: the store call and `ensure_correct_store` on the store it produced). -/
+theorem C16_safe_bitmap_insert (b : Bitmap) (h : b.WF) (v : Nat) (hv : v < 4294967296) : Bitmap.Safe_insert b v :=
+  Bitmap.safe_bitmap_insert b h.storesInv v hv
+example : Bitmap.Safe_insert exB 70000 ∧ Bitmap.Safe_insert exB 131072 :=
+  ⟨C16_safe_bitmap_insert exB exB_wf _ (by decide), C16_safe_bitmap_insert exB exB_wf _ (by decide)⟩
+/-- teeth: a bitset chunk whose cached `len` is `u64::MAX` makes `self.len += 1` overflow inside `insert` -/
+example : ¬ Bitmap.Safe_insert [⟨0, .bitmap { len := wMax, bits := BStore.zeros }⟩] 5 := by decide +kernel
+
+/-- `RoaringBitmap::remove` (inherent.rs:348-363): `self.containers[loc]` (:352, :353), `Container::remove`
+    (container.rs:95-102), `self.containers.remove(loc)` (:354). -/
+theorem C16_safe_bitmap_remove (b : Bitmap) (h : b.WF) (v : Nat) (hv : v < 4294967296) : Bitmap.Safe_remove b v :=
+  Bitmap.safe_bitmap_remove b h.storesInv v hv
+example : Bitmap.Safe_remove exB 2 ∧ Bitmap.Safe_remove exB 196607 :=
+  ⟨C16_safe_bitmap_remove exB exB_wf _ (by decide), C16_safe_bitmap_remove exB exB_wf _ (by decide)⟩
+/-- teeth: with a cached `len` of 0 over non-empty words `self.len -= 1` underflows inside `remove` -/
+example : ¬ Bitmap.Safe_remove [⟨2, .bitmap { len := 0, bits := List.replicate 1024 wMax }⟩] 131072 := by
+  decide +kernel
+
+/-- `RoaringBitmap::contains` (inherent.rs:423-429). -/
+theorem C16_safe_bitmap_contains (b : Bitmap) (h : b.WF) (v : Nat) (hv : v < 4294967296) : Bitmap.Safe_contains b v :=
+  Bitmap.safe_bitmap_contains b h.storesInv v hv
+example : Bitmap.Safe_contains exB 131073 := C16_safe_bitmap_contains exB exB_wf _ (by decide)
+/-- teeth: a bitset chunk with too few words makes `self.bits[key(index)]` go out of range -/
+example : ¬ Bitmap.Safe_contains [⟨0, .bitmap { len := 5000, bits := [1, 2, 3] }⟩] 4000 := by decide
+
+/-- `RoaringBitmap::min` / `max` (inherent.rs:648-650, :667-669): the store call and `util::join`. -/
+theorem C16_safe_bitmap_min_max (b : Bitmap) (h : b.WF) : Bitmap.Safe_min b ∧ Bitmap.Safe_max b :=
+  ⟨Bitmap.safe_bitmap_min b h, Bitmap.safe_bitmap_max b h⟩
+example : Bitmap.Safe_min exB ∧ Bitmap.Safe_max exB := C16_safe_bitmap_min_max exB exB_wf
+
+/-- `RoaringBitmap::push` (inherent.rs:295-309): `Container::push` on the last container or on a new one
+    (container.rs:74-81; `BitmapStore::push` evaluates `self.max()` and calls `insert`). -/
+theorem C16_safe_bitmap_push (b : Bitmap) (h : b.WF) (v : Nat) (hv : v < 4294967296) : Bitmap.Safe_push b v :=
+  Bitmap.safe_bitmap_push b h.storesInv v hv
+example : Bitmap.Safe_push exB 4294967295 ∧ Bitmap.Safe_push exB 196607 ∧ Bitmap.Safe_push exB 7 :=
+  ⟨C16_safe_bitmap_push exB exB_wf _ (by decide), C16_safe_bitmap_push exB exB_wf _ (by decide),
+   C16_safe_bitmap_push exB exB_wf _ (by decide)⟩
+
+/-- `RoaringBitmap::push_unchecked` (inherent.rs:318-333, crate-private) under its documented precondition
+    (`value` above every element): neither the explicit `panic!("last container key > key of value")` nor the
+    store-level `assert!(index > max)` fires (they are conjuncts of the predicate), and the store / container calls
+    are safe. -/
+theorem C16_safe_bitmap_pushUnchecked (dbg : Bool) (b : Bitmap) (h : b.WF) (v : Nat) (hv : v < 4294967296)
+    (hmax : ∀ x ∈ Bitmap.elems b, x < v) : Bitmap.Safe_pushUnchecked dbg b v :=
+  Bitmap.safe_bitmap_pushUnchecked dbg b h v hv hmax
+example : Bitmap.Safe_pushUnchecked true [⟨0, .array [1, 2, 3]⟩] 9 :=
+  C16_safe_bitmap_pushUnchecked true _ ((bitmapWF_iff _).1 ⟨by decide, fun c hc => by
+    simp at hc; subst hc; exact ⟨by decide, by decide, by decide, by decide⟩⟩) 9 (by decide) (by decide)
+/-- teeth: the precondition is needed — below the maximum the debug assertion fires (and only in a debug build) -/
+example : ¬ Bitmap.Safe_pushUnchecked true [⟨0, .array [1, 2, 3]⟩] 2
+    ∧ Bitmap.Safe_pushUnchecked false [⟨0, .array [1, 2, 3]⟩] 2 := by decide
+
+/-- `RoaringBitmap::remove_range`, the whole method (inherent.rs:379-407): `util::split`; at EVERY iteration of
+    `while index < self.containers.len()` — on the container vector as the iterations before left it — the index is
+    below the length (:393, :397, :398, :399 `self.containers.remove(index)`), the container call receives
+    `a ≤ b ≤ u16::MAX` and is safe (container.rs:104-108, store/mod.rs:134-143 and the store code below it,
+    `ensure_correct_store` on the store it produced), `removed += …` fits `u64`, `index += 1` fits `usize`. -/
+theorem C16_safe_bitmap_removeRange (b : Bitmap) (h : b.WF) (lo hi : Bound)
+    (hlo : Bound.le u32Max lo) (hhi : Bound.le u32Max hi) : Bitmap.Safe_removeRange b lo hi :=
+  Bitmap.safe_bitmap_removeRange b h lo hi hlo hhi
+example : Bitmap.Safe_removeRange exB (.incl 2) (.excl 140000) ∧ Bitmap.Safe_removeRange exB .unb .unb :=
+  ⟨C16_safe_bitmap_removeRange exB exB_wf _ _ (by decide) (by decide),
+   C16_safe_bitmap_removeRange exB exB_wf _ _ (by decide) (by decide)⟩
+/-- teeth: on a chunk whose cached `len` is too small, `self.len -= removed` underflows inside the loop -/
+example : ¬ Bitmap.Safe_removeRange [⟨2, .bitmap { len := 0, bits := List.replicate 1024 wMax }⟩]
+    (.incl 131072) (.incl 131080) := by decide +kernel
+
+/-- the iteration states that `Bitmap.Safe_removeRangeLoop` visits are the model's: the state-passing loop it follows
+    (`done` = `self.containers[..index]`, counter `removed`) ends in the result of the model's `removeRangeLoop`. -/
+theorem C16_safe_bitmap_removeRange_follows_model (sk si ek ei : Nat) (b : Bitmap) :
+    Bitmap.removeRangeIter sk si ek ei [] b 0 = Bitmap.removeRangeLoop sk si ek ei b := by
+  rw [Bitmap.removeRangeIter_eq]; simp
+
+/-- `Extend<u32>::extend` / `FromIterator` (iter.rs:736-760, :702-706): per value the whole of `insert`
+    (`util::split`, `find_container_by_key`, `self.containers[index]`, `Container::insert`) on the bitmap as the values
+    before it left it. -/
+theorem C16_safe_bitmap_extend (b : Bitmap) (h : b.WF) (vs : List Nat) (hvs : ∀ v ∈ vs, v < 4294967296) :
+    Bitmap.Safe_extend b vs := Bitmap.safe_bitmap_extend vs b h hvs
+example : Bitmap.Safe_extend exB [5, 70000, 1, 4294967295] := C16_safe_bitmap_extend exB exB_wf _ (by decide)
+
+/-- `RoaringBitmap::append` / `from_sorted_iter` (iter.rs:843-876, :817-823), for an iterator of any length:
+    `self.max()`, every `push_unchecked` (whose precondition `append` establishes, so no debug assertion fires),
+    `count += 1` (`count ≤ prev + 1 ≤ 2^32`). -/
+theorem C16_safe_bitmap_append (dbg : Bool) (b : Bitmap) (h : b.WF) (vs : List Nat)
+    (hvs : ∀ v ∈ vs, v < 4294967296) : Bitmap.Safe_append dbg b vs := Bitmap.safe_bitmap_append dbg b h vs hvs
+example : Bitmap.Safe_append true exB [200000, 200001, 4294967295] ∧ Bitmap.Safe_append true exB [200000, 7] :=
+  ⟨C16_safe_bitmap_append true exB exB_wf _ (by decide), C16_safe_bitmap_append true exB exB_wf _ (by decide)⟩
+
+/-! ### `RoaringTreemap` as a whole (treemap/inherent.rs, treemap/iter.rs) -/
+
+/-- `RoaringTreemap::insert` / `remove` / `contains` (treemap/inherent.rs:50-53, :177-192, :253-259): `util::split` and
+    the whole 32-bit method on the partition (`entry(hi).or_default()`: the existing partition or `new()`). -/
+theorem C16_safe_treemap_insert_remove_contains (t : Treemap) (hw : Treemap.TWF t) (v : Nat) (hv : v < 2^64) :
+    Treemap.Safe_insert t v ∧ Treemap.Safe_remove t v ∧ Treemap.Safe_contains t v :=
+  ⟨Treemap.safe_tm_insert t hw v hv, Treemap.safe_tm_remove t hw v hv, Treemap.safe_tm_contains t hw v hv⟩
+example : Treemap.Safe_insert C12.tEx 8589934595 ∧ Treemap.Safe_remove C12.tEx 8589934595 ∧
+    Treemap.Safe_contains C12.tEx 8589934595 :=
+  C16_safe_treemap_insert_remove_contains C12.tEx C12.tEx_TWF _ (by decide)
+
+/-- `RoaringTreemap::push` (treemap/inherent.rs:126-139). -/
+theorem C16_safe_treemap_push (t : Treemap) (hw : Treemap.TWF t) (v : Nat) (hv : v < 2^64) : Treemap.Safe_push t v :=
+  Treemap.safe_tm_push t hw v hv
+example : Treemap.Safe_push C12.tEx 18446744073709551615 := C16_safe_treemap_push C12.tEx C12.tEx_TWF _ (by decide)
+
+/-- `RoaringTreemap::push_unchecked` (treemap/inherent.rs:147-162) under its precondition: the explicit
+    `panic!("last bitmap key > key of value")` does not fire and the 32-bit `push_unchecked` is safe. -/
+theorem C16_safe_treemap_pushUnchecked (dbg : Bool) (t : Treemap) (hw : Treemap.TWF t) (v : Nat) (hv : v < 2^64)
+    (hmax : ∀ x ∈ Treemap.elems t, x < v) : Treemap.Safe_pushUnchecked dbg t v :=
+  Treemap.safe_tm_pushUnchecked dbg t hw v hv hmax
+example : Treemap.Safe_pushUnchecked true C12.tEx 17179869192 :=
+  C16_safe_treemap_pushUnchecked true C12.tEx C12.tEx_TWF _ (by decide) (by decide)
+/-- teeth: a value in an earlier partition hits the explicit `panic!` in a debug build -/
+example : ¬ Treemap.Safe_pushUnchecked true C12.tEx 4294967296 := by decide
+
+/-- `RoaringTreemap::max` (treemap/inherent.rs:366-372): every `rb.max()` the scan evaluates, `util::join`. -/
+theorem C16_safe_treemap_max (t : Treemap) (hw : Treemap.TWF t) : Treemap.Safe_max t := Treemap.safe_tm_max t hw
+example : Treemap.Safe_max C12.tEx := C16_safe_treemap_max C12.tEx C12.tEx_TWF
+
+/-- `RoaringTreemap::insert_range`, the whole method (treemap/inherent.rs:70-107; one, two and three or more
+    partitions): `util::split`; at EVERY iteration of `for hi in start_hi..=end_hi`, on the map as the iterations before
+    left it, the whole 32-bit `insert_range` on the partition (`C16_safe_insertRange`) resp. `full_bitmap.len()`,
+    `entry.insert(full_bitmap).len()` and their difference for a whole interior partition (:96-101), and
+    `counter += …` in `u64`.  The only excluded input is `insert_range(..)` (all `2^64` values) into the EMPTY treemap,
+    where `counter` reaches exactly `2^64` (`C16_treemap_len_2p64_observation`: `2^61` bytes, not reachable). -/
+theorem C16_safe_treemap_insertRange (t : Treemap) (hw : Treemap.TWF t) (lo hi : Bound)
+    (hlo : Bound.le u64Max lo) (hhi : Bound.le u64Max hi)
+    (hnf : t ≠ [] ∨ convertRange64 lo hi ≠ some (0, u64Max)) : Treemap.Safe_insertRange t lo hi :=
+  Treemap.safe_tm_insertRange t hw lo hi hlo hhi hnf
+/-- one partition, two partitions, five partitions (three whole interior ones, one of them existing), everything -/
+example : Treemap.Safe_insertRange C12.tEx (.incl 7) (.incl 4294967295)
+    ∧ Treemap.Safe_insertRange C12.tEx (.incl 7) (.excl 4294967300)
+    ∧ Treemap.Safe_insertRange C12.tEx (.excl 4294967000) (.incl 21474836480)
+    ∧ Treemap.Safe_insertRange C12.tEx .unb .unb :=
+  ⟨C16_safe_treemap_insertRange _ C12.tEx_TWF _ _ (by decide) (by decide) (Or.inl (by decide)),
+   C16_safe_treemap_insertRange _ C12.tEx_TWF _ _ (by decide) (by decide) (Or.inl (by decide)),
+   C16_safe_treemap_insertRange _ C12.tEx_TWF _ _ (by decide) (by decide) (Or.inl (by decide)),
+   C16_safe_treemap_insertRange _ C12.tEx_TWF _ _ (by decide) (by decide) (Or.inl (by decide))⟩
+/-- into the empty treemap every range but the whole universe -/
+example : Treemap.Safe_insertRange [] (.incl 1) .unb :=
+  C16_safe_treemap_insertRange [] Treemap.WFd.nil _ _ (by decide) (by decide) (Or.inr (by decide))
+
+/-- the hypothesis of `C16_safe_treemap_insertRange` is exactly what `counter` needs: for every well-formed treemap
+    and range the final `counter` is below `2^64` unless the range is everything and the treemap is empty. -/
+theorem C16_safe_treemap_insertRange_counter (t : Treemap) (hw : Treemap.TWF t) (lo hi : Bound)
+    (hlo : Bound.le u64Max lo) (hhi : Bound.le u64Max hi)
+    (hnf : t ≠ [] ∨ convertRange64 lo hi ≠ some (0, u64Max)) : (Treemap.insertRange t lo hi).2 < 2^64 :=
+  Treemap.insertRange_count_lt t hw lo hi hlo hhi hnf
+
+/-- `RoaringTreemap::remove_range`, the whole method (treemap/inherent.rs:207-238): `util::split`; for every partition
+    in the key range the WHOLE 32-bit `remove_range` (`C16_safe_bitmap_removeRange`) with `a ≤ u32::MAX`, `b ≤ u32::MAX`,
+    and `removed += …` in `u64` — for fewer than `2^32` partitions (with all `2^32` partitions full the counter of
+    `remove_range(..)` reaches `2^64`, the same unreachable value as in `C16_treemap_len_2p64_observation`). -/
+theorem C16_safe_treemap_removeRange (t : Treemap) (hw : Treemap.TWF t) (hl : t.length < 4294967296) (lo hi : Bound)
+    (hlo : Bound.le u64Max lo) (hhi : Bound.le u64Max hi) : Treemap.Safe_removeRange t lo hi :=
+  Treemap.safe_tm_removeRange t hw hl lo hi hlo hhi
+example : Treemap.Safe_removeRange C12.tEx (.incl 5) (.excl 17179869191) ∧ Treemap.Safe_removeRange C12.tEx .unb .unb :=
+  ⟨C16_safe_treemap_removeRange _ C12.tEx_TWF (by decide) _ _ (by decide) (by decide),
+   C16_safe_treemap_removeRange _ C12.tEx_TWF (by decide) _ _ (by decide) (by decide)⟩
+
+/-- `RoaringTreemap::append` / `from_sorted_iter` (treemap/iter.rs:522-552): `self.max()`, every `push_unchecked` (its
+    precondition holds, so no panic in either build), `count += 1` (for an iterator of fewer than `2^64` items). -/
+theorem C16_safe_treemap_append (dbg : Bool) (t : Treemap) (hw : Treemap.TWF t) (vs : List Nat)
+    (hvs : ∀ v ∈ vs, v < 2^64) (hcnt : vs.length < 2^64) : Treemap.Safe_append dbg t vs :=
+  Treemap.safe_tm_append dbg t hw (C10.C10_max t hw) vs hvs hcnt
+example : Treemap.Safe_append true C12.tEx [17179869192, 18446744073709551615, 3] :=
+  C16_safe_treemap_append true C12.tEx C12.tEx_TWF _ (by decide) (by decide)
+
+/-! ### iterators and MultiOps: the size arithmetic and the indexings (bitmap/iter.rs, treemap/iter.rs, multiops.rs) -/
+
+/-- `bitmap::Iter` / `IntoIter` `size_hint` and `count` (bitmap/iter.rs:250-265, :305-313) at EVERY cursor state
+    (`C03.IterWF` is preserved by every iterator call, `C03_step`): `it.len()` of the front / back iterators never trips
+    the `ExactSizeIterator` assertion, `first_size + last_size` (a plain `usize` `+`), `container.len() as usize`, the
+    `usize` sums of `count`. -/
+theorem C16_safe_iter_sizeHint_count (it : Iter) (h : C03.IterWF it) : Iter.Safe_sizeHint it ∧ Iter.Safe_count it :=
+  Iter.safe_sizeHint_count it h
+example : Iter.Safe_sizeHint (Bitmap.iter exB) ∧ Iter.Safe_count (Bitmap.iter exB) :=
+  C16_safe_iter_sizeHint_count _ (C03.C03_init_WF exB exB_wf).1
+example : Iter.Safe_sizeHint (Bitmap.iter exB).next.1 ∧ Iter.Safe_count (Bitmap.iter exB).next.1 := by decide +kernel
+
+/-- `nth` / `nth_back` (bitmap/iter.rs:315-341, :374-400), every `n : usize`: `n -= len` only when `len ≤ n`,
+    `container.len() as usize`, `it.len()`. -/
+theorem C16_safe_iter_nth (it : Iter) (h : it.Inv) (n : Nat) : Iter.Safe_nth it n ∧ Iter.Safe_nthBack it n :=
+  ⟨Iter.safe_nth it h n, Iter.safe_nthBack it h n⟩
+example : Iter.Safe_nth (Bitmap.iter exB) 65000 ∧ Iter.Safe_nthBack (Bitmap.iter exB) 18446744073709551615 :=
+  ⟨(C16_safe_iter_nth _ (C03.C03_init_WF exB exB_wf).1.1 _).1, (C16_safe_iter_nth _ (C03.C03_init_WF exB exB_wf).1.1 _).2⟩
+
+/-- `treemap::Iter`: `To64Iter::fold`'s `((self.hi as u64) << 32) + (lo as u64)` (treemap/iter.rs:42, :57, :82, :97) for
+    every partition key and yielded `u32`; `BitmapIter::remaining` (:593-596, a plain `u64` sum read by `size_hint`) and
+    the sum of `IntoIter::new` (:235) for fewer than `2^32` remaining partitions (with all `2^32` partitions full it is
+    the `2^64` of `C16_treemap_len_2p64_observation`).  The other additions of the two `size_hint`s saturate. -/
+theorem C16_safe_treemap_iter (hi lo : Nat) (hhi : hi < 4294967296) (hlo : lo < 4294967296)
+    (p : TIter.PIter) (h : Treemap.PartsWF p.range) (hl : p.range.length < 4294967296) :
+    TIter.Safe_foldJoin hi lo ∧ TIter.PIter.Safe_remaining p ∧ TIter.Safe_intoIterNew p.range :=
+  ⟨TIter.safe_foldJoin hi lo hhi hlo, TIter.PIter.safe_remaining p h hl, Treemap.safe_len p.range h hl⟩
+example : TIter.Safe_foldJoin 4294967295 4294967295 ∧ TIter.PIter.Safe_remaining (TIter.PIter.new C12.tEx) := by
+  decide +kernel
+
+/-- MultiOps (multiops.rs): `lhs.insert(loc, rhs)` / `&mut lhs[loc]` (:280, :281) and `containers.insert(loc, …)` /
+    `&mut containers[loc]` (:398, :401) are in range at every iteration of the merge loops — for EVERY accumulator
+    (the `binary_search_by_key` contract), so also for the not yet canonical containers in the middle of a multi-op.
+    There is no other partial operation in `multiops.rs` (see `SafeCompose.lean`). -/
+theorem C16_safe_multiops_merge (op : Store → Store → Store) (lhs rhs : List Container) (cs : List Multi.Cow) :
+    Multi.Safe_mergeContainerOwned op lhs rhs ∧ Multi.Safe_mergeContainerRef op cs rhs :=
+  ⟨Multi.safe_mergeContainerOwned op rhs lhs, Multi.safe_mergeContainerRef op rhs cs⟩
+example : Multi.Safe_mergeContainerOwned Store.orAssignOwned exB [⟨1, .array [7]⟩, ⟨2, .array [9]⟩] :=
+  (C16_safe_multiops_merge _ _ _ []).1
 
 end Roaring.C16
